@@ -33,8 +33,9 @@ import numpy as np
 from check import Failure
 from sfv import gen
 from sfv.canon import tok, err_cat, dtype_tok, array_toks
+from sfv.props import c17_busgen as bgen      # Bus._update_series_cache_iloc translated from the source (py2lean_bus)
 
-TARGETS = ['SFModel.Props.C17']
+TARGETS = ['SFModel.Props.C17'] + bgen.TARGETS
 THEOREMS = [
     'SF.C17.bus_inv', 'SF.C17.bus_inv_reach', 'SF.C17.bus_lru', 'SF.C17.bus_lru_hit', 'SF.C17.bus_faithful',
     'SF.C17.bus_faithful_step', 'SF.C17.reader_reads_eager', 'SF.C17.bus_faithful_pinned_reader_counterexample', 'SF.C17.bus_element_is_frame', 'SF.C17.bus_values_frames',
@@ -42,15 +43,15 @@ THEOREMS = [
     'SF.C17.bus_bound_after_failed_read_pinned_counterexample', 'SF.C17.bus_sort_values_counterexample',
     'SF.C17.store_reader_batches_flatten', 'SF.C17.store_reader_batch_size',
     'SF.C17.store_stale', 'SF.C17.bus_stale_raises', 'SF.C17.store_stale_iff', 'SF.C17.store_write_current', 'SF.C17.store_open_current',
-]
+] + bgen.THEOREMS
 PARTIAL = [
     'mtime granularity (a rewrite within one clock tick), concurrent writers and the serialisers of the formats are not modelled (the store is a function label -> frame)',
-]
+] + bgen.PARTIAL
 CORR_ONLY = [
     'label -> position translation of loc / getitem keys (Index._loc_to_iloc) is done by the harness; the model takes the iloc key',
     'write/read faithfulness of zip-pickle, zip-csv, zip-tsv, sqlite (frames written vs frames read, every run)',
     'status / shapes / iteration / keys / len / contains do not change the state and report the loaded flags',
-]
+] + bgen.CORR_ONLY
 RULE = ('seeded random histories: 1..6 frames (pickle: every dtype / index kind of sfv.gen; csv, tsv, sqlite: int/float/bool/str columns, '
         'auto / str / int / depth-2 hierarchical row index), formats zip_pickle, zip_csv, zip_tsv, sqlite (xlsx, hdf5, zip_parquet when importable, '
         'else counted as skipped), StoreConfig given as per-label map / single config / map with default, max_persist in {None, 1..n}, up to 12 ops '
@@ -59,7 +60,7 @@ RULE = ('seeded random histories: 1..6 frames (pickle: every dtype / index kind 
         'thorough adds every history of length 4 over 3 labels (single labels, ordered pairs, null slice) for max_persist None,1,2,3; '
         'non-trivial = at least one loading access on a non-empty Bus; distinct = distinct canonical case JSON')
 TRUSTED = ['harness reference LRU (collections.OrderedDict) and the snapshot comparison of frames',
-           'os.utime / os.stat report the mtime the library sees through os.path.getmtime']
+           'os.utime / os.stat report the mtime the library sees through os.path.getmtime'] + bgen.TRUSTED
 ASSUMPTIONS = ['file events change the mtime to a different value (2 s apart); a rewrite that keeps the recorded mtime is indistinguishable by design',
                'single-threaded use: the file cannot change between two reads of one access']
 BUDGET = {'quick': 60, 'thorough': 700}
@@ -67,7 +68,7 @@ BUDGET = {'quick': 60, 'thorough': 700}
 F41 = 'F61-bus-sort-values-max-persist'
 F42 = 'F62-bus-placeholder-from-get-iter-element'
 F43 = 'F63-sqlite-integer-index-row-order'
-TAGS = {'sortv': F41, 'placeholder': F42, 'sqlite_order': F43}
+TAGS = {'sortv': F41, 'placeholder': F42, 'sqlite_order': F43, 'partial_read': bgen.F96}
 
 FMT_CORE = ['zip_pickle', 'zip_csv', 'zip_tsv', 'sqlite']
 FMT_OPTIONAL = {'xlsx': ('openpyxl', 'xlsxwriter'), 'hdf5': ('tables',), 'zip_parquet': ('pyarrow',)}
@@ -518,6 +519,7 @@ def cases(ctx):
     rng = ctx.rng('main')
     quick = ctx.tier == 'quick'
     fmts = formats(ctx)
+    yield from bgen.cases(ctx)      # translated cache update vs the real Bus (grid) + the primitives of the translation
     for c in scripted_cases(fmts):
         yield c
     for _ in range(80 if quick else 600):
@@ -620,11 +622,14 @@ def eval_enc(ctx, c):
 def search(ctx):
     rng = ctx.rng('search')
     fmts = formats()
+    yield from bgen.search(ctx)
     for _ in range(20000):
         yield rand_case(rng, fmts)
 
 
 def nontrivial(c):
+    if c['k'] in ('bgrid', 'bsem'):
+        return bgen.nontrivial(c)
     if c['k'] == 'enc':
         return True
     if c['k'] == 'store':
@@ -640,6 +645,8 @@ def ids_of(case):
 
 
 def model_lines(c):
+    if c['k'] in ('bgrid', 'bsem'):
+        return bgen.model_lines(c)
     if c['k'] == 'enc':
         return []
     if c['k'] == 'store':
@@ -908,6 +915,8 @@ class Ref:
 
 
 def evaluate(ctx, c, outs):
+    if c['k'] in ('bgrid', 'bsem'):
+        return bgen.evaluate(ctx, c, outs)
     if c['k'] == 'enc':
         return eval_enc(ctx, c)
     if c['k'] == 'store':
